@@ -20,13 +20,16 @@ CONSTANTS
   MaxLines = %(l)d
   Devs = {%(devs)s}
   GenN = %(n)d
+  Vias = {%(vias)s}
 %(tail)s
 """
-DEVS = ["RefoldOnSpool", "StripTrailingWS", "LoseDotStuffing", "LowercaseNames"]
+DEVS = ["RefoldOnSpool", "StripTrailingWS", "LoseDotStuffing", "LowercaseNames", "FieldAfterSigning"]
+ALL_VIAS = ("direct", "pipe_body", "pipe_na")
 
 
-def cfg(spec, f, l, n=0, devs=(), tail=""):
-    return CFG % dict(spec=spec, f=f, l=l, n=n, devs=", ".join('"%s"' % d for d in devs), tail=tail)
+def cfg(spec, f, l, n=0, devs=(), tail="", vias=ALL_VIAS):
+    return CFG % dict(spec=spec, f=f, l=l, n=n, devs=", ".join('"%s"' % d for d in devs), tail=tail,
+                      vias=", ".join('"%s"' % v for v in vias))
 
 
 KCFG = """SPECIFICATION %(spec)s
@@ -154,7 +157,13 @@ def run(ctx, replay):
         return
     if not replay:
         r = ctx.tlc_expect_ok("MsgShape", None, name="mc", workers=8, timeout=1800,
-                              cfg_text=cfg("Spec", 3 if thorough else 2, 2, tail="INVARIANT RowOK\n"))
+                              cfg_text=cfg("Spec", 3 if thorough else 2, 2, tail="INVARIANT RowOK\n",
+                                           vias=ALL_VIAS if thorough else ("direct",)))
+        if not thorough:      # the pipeline entries x a smaller shape space
+            r2 = ctx.tlc_expect_ok("MsgShape", None, name="mc-via", workers=8, timeout=900,
+                                   cfg_text=cfg("Spec", 1, 1, tail="INVARIANT RowOK\n"))
+            r["distinct"] += r2["distinct"]
+            r["generated"] += r2["generated"]
         ctx.cov["states"], ctx.cov["transitions"] = r["distinct"], r["generated"]
         ctx.log("TLC exhaustive: %d shapes, %.1fs" % (r["distinct"], r["wall"]))
         caught = []
